@@ -38,7 +38,8 @@ enum ResObj {
     Buf(a10::io::ReadBuf),
 }
 
-const BUF_SIZE: u32 = 1024;
+// Deliberately not a power of two.
+const BUF_SIZE: u32 = 1000;
 
 #[derive(Debug, Clone, PartialEq)]
 enum Ret {
